@@ -321,6 +321,120 @@ theorem mkUnit_spec (pre : Prefixes K) (t : Lut K) (e : UExpr K) (u : UnitV K)
 
 end synthden
 
+/-! ### the scale of a synthesised unit -/
+section synthscale
+variable {K : Type} [Lean.Grind.Field K] [RPow K]
+
+/-- the scale `_get_system_unit_string` spells out: the product of the base units' scales
+    (coefficient included) to the exponents of the dimension -/
+def scaleOver (sc : Dim → K) (d : Dim) : List (Dim × (Dim → Rat)) → K
+  | [] => 1
+  | (bd, proj) :: r => if proj d = 0 then scaleOver sc d r else RPow.rpow (sc bd) (proj d) * scaleOver sc d r
+
+variable (P : K → Prop) (laws : RPowLaws (RPow.rpow (K := K)) P)
+
+/-- `ExprOK` with the full scale `s = coefficient × denoted scale` made explicit -/
+def DenS (pre : Prefixes K) (t : Lut K) (e : UExpr K) (s : K) (d : Dim) : Prop :=
+  AllPos P pre t e.factors ∧ P e.coeff ∧ ∃ v, denoteF pre t e.factors = some (v, d) ∧ P v ∧ e.coeff * v = s
+
+include laws
+
+theorem denS_of_exprOK (pre : Prefixes K) (t : Lut K) (e : UExpr K) (d : Dim) (h : ExprOK P pre t e d) :
+    ∃ s, DenS P pre t e s d ∧ denote pre t e = some (s, d) := by
+  obtain ⟨hp, hc, v, hv⟩ := h
+  obtain ⟨v', d', hv', hpv⟩ := denoteF_pos P laws pre t e.factors hp
+  rw [hv] at hv'; cases hv'
+  exact ⟨e.coeff * v, ⟨hp, hc, v, hv, hpv, rfl⟩, by simp only [denote, hv]⟩
+
+theorem denS_pos (pre : Prefixes K) (t : Lut K) (e : UExpr K) (s : K) (d : Dim) (h : DenS P pre t e s d) : P s := by
+  obtain ⟨_, hc, v, _, hpv, hs⟩ := h
+  rw [← hs]; exact laws.pos_mul hc hpv
+
+theorem denS_one (pre : Prefixes K) (t : Lut K) : DenS P pre t (UExpr.one : UExpr K) 1 Dim.one :=
+  ⟨allPos_nil P pre t, laws.pos_one, 1, rfl, laws.pos_one, by simp only [UExpr.one]; grind⟩
+
+theorem denS_mul (pre : Prefixes K) (t : Lut K) (a b : UExpr K) (sa sb : K) (da db : Dim)
+    (ha : DenS P pre t a sa da) (hb : DenS P pre t b sb db) : DenS P pre t (a.mul b) (sa * sb) (da * db) := by
+  obtain ⟨pa, ca, va, hva, hpa, hsa⟩ := ha
+  obtain ⟨pb, cb, vb, hvb, hpb, hsb⟩ := hb
+  refine ⟨allPos_append P pre t _ _ pa pb, laws.pos_mul ca cb, va * vb, ?_, laws.pos_mul hpa hpb, ?_⟩
+  · simp only [UExpr.mul, denoteF_append, hva, hvb]
+  · simp only [UExpr.mul]; rw [← hsa, ← hsb]; grind
+
+theorem denS_powE (pre : Prefixes K) (t : Lut K) (e : UExpr K) (s : K) (bd : Dim) (q : Rat)
+    (h : DenS P pre t e s bd) : DenS P pre t (powE e q) (RPow.rpow s q) (bd.pow q) := by
+  have hs := denS_pos P laws pre t e s bd h
+  obtain ⟨pe, ce, v, hv, hpv, hsv⟩ := h
+  simp only [powE]
+  split
+  · rename_i hq; subst hq
+    rw [Dim.pow_one, laws.rpow_one hs]
+    exact ⟨pe, ce, v, hv, hpv, hsv⟩
+  · refine ⟨allPos_scaleF P pre t _ q pe, laws.pos_rpow q ce, RPow.rpow v q, ?_, laws.pos_rpow q hpv, ?_⟩
+    · simp only [UExpr.pow, denoteF_scaleF P laws pre t e.factors q pe, hv]
+    · simp only [UExpr.pow]; rw [← hsv, laws.mul_rpow q ce hpv]
+
+/-- the synthesised expression denotes the spelled-out scale and dimension -/
+theorem synthOver_denS (pre : Prefixes K) (t : Lut K) (m : UMap K) (sc : Dim → K) (d : Dim)
+    (L : List (Dim × (Dim → Rat)))
+    (h : ∀ p, p ∈ L → p.2 d ≠ 0 → ∃ b, m.get? p.1 = some b ∧ DenS P pre t b (sc p.1) p.1) :
+    DenS P pre t (synthOver m d L) (scaleOver sc d L) (dimOver d L) := by
+  induction L with
+  | nil => exact denS_one P laws pre t
+  | cons p r ih =>
+    obtain ⟨bd, proj⟩ := p
+    have ih' := ih (fun p hp => h p (List.mem_cons_of_mem _ hp))
+    simp only [synthOver, dimOver, scaleOver]
+    split
+    · rename_i h0
+      rw [h0, Dim.pow_zero, Dim.one_mul']; exact ih'
+    · rename_i h0
+      obtain ⟨b, hb, hok⟩ := h (bd, proj) (List.mem_cons_self ..) h0
+      have : baseOf m bd = b := by simp [baseOf, hb]
+      rw [this]
+      exact denS_mul P laws pre t _ _ _ _ _ _ (denS_powE P laws pre t b _ bd (proj d) hok) ih'
+
+variable [BEq K] [LawfulBEq K]
+
+/-- `Unit(expr)`: the scale is coefficient × denoted scale -/
+theorem mkUnit_scale (pre : Prefixes K) (t : Lut K) (e : UExpr K) (u : UnitV K)
+    (h : mkUnit pre t e = .ok u) (hpos : AllPos P pre t e.factors) (v : K) (d : Dim)
+    (hd : denoteF pre t e.factors = some (v, d)) : u.scale = e.coeff * v := by
+  simp only [mkUnit] at h
+  split at h
+  · rename_i u' t' ho
+    cases h
+    simp only [UnitV.ofExpr] at ho
+    split at ho
+    · contradiction
+    · rename_i v1 d1 t1 hev
+      obtain ⟨hden, hres⟩ := evalFactors_denote pre (normF e.factors) t v1 d1 _ hev
+      rw [denoteF_normF P laws pre t e.factors hpos, hd] at hden
+      have hvv : v = v1 := by cases hden; rfl
+      split at ho
+      · rename_i s q hnf
+        split at ho
+        · rename_i hq1
+          split at ho
+          · rename_i ent hent
+            cases ho
+            have hqc : q = 1 ∧ e.coeff = 1 := by
+              simp only [Bool.and_eq_true, beq_iff_eq] at hq1; exact hq1
+            obtain ⟨hq, hc⟩ := hqc
+            subst hq
+            have hr : resolve pre t s = some ent := by
+              rw [← hres s]; simp only [resolve, lookupUnitSymbol, hent]
+            have hd2 := denoteF_normF P laws pre t e.factors hpos
+            rw [hnf, hd] at hd2
+            simp only [denoteF, hr, Option.some.injEq, Prod.mk.injEq, pw, if_true] at hd2
+            rw [hc, ← hd2.1]; grind
+          · contradiction
+        · cases ho; rw [hvv]
+      · cases ho; rw [hvv]
+  · contradiction
+
+end synthscale
+
 /-! ### small facts used by the `__init__` and `in_base` theorems -/
 section misc
 variable {K : Type} [Lean.Grind.Field K] [RPow K] [BEq K] [LawfulBEq K]
